@@ -554,10 +554,14 @@ impl Ics20Scen {
             let r: Option<ListAllowedResponse> = self.q(&QueryMsg::ListAllowed { start_after: cursor.clone(), limit });
             match r {
                 Some(p) if !p.allow.is_empty() => {
-                    cursor = Some(p.allow.last().unwrap().contract.clone());
+                    let next = Some(p.allow.last().unwrap().contract.clone());
                     for a in p.allow {
                         allow.push(format!("{}|{}", a.contract, opt_str(&a.gas_limit)));
                     }
+                    if next == cursor {
+                        break; // no progress (a defect in the code under test): do not walk forever
+                    }
+                    cursor = next;
                 }
                 _ => break,
             }
@@ -1006,8 +1010,12 @@ impl Scenario for Ics20Scen {
                 for _ in 0..100 {
                     match self.q::<ListAllowedResponse>(&QueryMsg::ListAllowed { start_after: cursor.clone(), limit: Some(30) }) {
                         Some(p) if !p.allow.is_empty() => {
-                            cursor = Some(p.allow.last().unwrap().contract.clone());
+                            let next = Some(p.allow.last().unwrap().contract.clone());
                             v.extend(p.allow.into_iter().map(|a| a.contract));
+                            if next == cursor {
+                                break;
+                            }
+                            cursor = next;
                         }
                         _ => break,
                     }
